@@ -10,7 +10,7 @@ CHECK = {
     "manifest": {
         "engine": "ENUM",
         "technique": "bounded-exhaustive enumeration against a reference model over real loopback HTTP",
-        "text": "Every RawHTTPResponse / RawHTTPRequest definition of a finite alphabet (status {unset,200,204,404,500}; header and trailer lists of 0-3 entries with 1-2 values, incl. lists that name the same header / trailer in two entries (identical spelling or differing only in case, adjacent or around another entry, the same entry twice), for which every given value is demanded in list order; body none | one message (unset/text/binary/binary_message x 7 compression values) | stream of 0-2 items with flags {0,1,2,128,255}, length unset or explicit, payload absent or present x compression; verbs, URIs, raw and encoded (+-base64) query parameters) is pushed through the real encoders, the real rawResponder middleware under every short adversarial handler script (set header / WriteHeader / Write / Flush / set trailer before or after choosing the raw response) and the real rawRequestSender, over HTTP/1.1, HTTP/2 (TLS) and h2c, and what a plain net/http peer receives is compared with the definition by an independent decoder.",
+        "text": "Every RawHTTPResponse / RawHTTPRequest definition of a finite alphabet (status {unset,200,204,404,500}; header and trailer lists of 0-3 entries with 1-2 values, incl. lists that name the same header / trailer in two entries (identical spelling or differing only in case, adjacent or around another entry, the same entry twice), for which every given value is demanded in list order; body none | one message (unset/text/binary/binary_message x 7 compression values) | stream of 0-2 items with flags {0,1,2,128,255}, length unset or explicit, payload absent or present x compression; verbs, URIs incl. paths with significant percent-escapes (%2F, %3F, %23, %25; with and without a query string of their own) combined with every raw / encoded query parameter list - the escaped path the server receives (request target, URL.EscapedPath()) must be the one specified -, raw and encoded (+-base64) query parameters) is pushed through the real encoders, the real rawResponder middleware under every short adversarial handler script (set header / WriteHeader / Write / Flush / set trailer before or after choosing the raw response) and the real rawRequestSender, over HTTP/1.1, HTTP/2 (TLS) and h2c, and what a plain net/http peer receives is compared with the definition by an independent decoder. Encoder histories: 2 and 3 encodings back to back on one goroutine (GOMAXPROCS 1, no GC inside a history, so pooled / global scratch state always reaches the next encoding): a stream or message written to a destination whose k-th Write fails (every k; nothing accepted or half of the bytes accepted), once or twice in a row, then an unrelated definition written to a good buffer, which must decode to exactly its own items.",
         "note": "Bodies are compared by decoding (envelope parse + decompression with the defining libraries), not byte-for-byte with a second encoder, because compressed bytes are not canonical. Host/Content-Length/Transfer-Encoding headers are outside the alphabet (owned by net/http).",
         "design_ref": "DESIGN.md §2.2, §4 C17",
     },
